@@ -54,11 +54,11 @@ class RefurbVisitor(TraverserVisitor):
         self.accept(o.callee)
 
     def run_check(self, node: Node, check: Check) -> None:
-        # Hack: use the type annotations to check if the function takes 2 or
-        # 3 arguments. There is an extra field for return types, hence why we
-        # use 4.
+        # The loader only accepts checks with 2 parameters, or 3 when the last one is the
+        # settings. Count the parameters themselves: the annotations may or may not
+        # include one for the return type.
 
-        if len(check.__annotations__) == 4:
+        if check.__code__.co_argcount == 3:
             check(node, self.errors, self.settings)  # type: ignore
 
         else:
